@@ -37,6 +37,9 @@ theorem remPtr_inv (fin : RState → Addr → RState) (hfin : ∀ st a, a ∈ P 
     (st : RState) (v : Word) (hv : (h1.lookup v).isSome = false) (hi : RInv h1 P st) : RInv h1 P (remPtr fin st v) := by
   unfold remPtr
   split
+  · exact hi
+  unfold remPtrBody
+  split
   · rename_i hc
     have hvp : v ∈ P := hi.pend v (by simpa using hc)
     exact hfin _ v hvp ⟨hi.heap, fun x hx => hi.pend x (mem_strike hx), hi.fin⟩
@@ -140,6 +143,9 @@ theorem remPtr_bounded (fin : RState → Addr → RState) (fuel : Nat)
     (remPtr fin st v).exhausted = false ∧ (remPtr fin st v).listed ≤ st.listed := by
   unfold remPtr
   split
+  · exact ⟨he, Nat.le_refl _⟩
+  unfold remPtrBody
+  split
   · rename_i hc
     have h1 := somes_strike hc
     have hlt : ({ st with pending := strike v st.pending } : RState).listed < fuel := by
@@ -214,6 +220,9 @@ theorem remPtr_fin_mono (fin : RState → Addr → RState) (hfin : ∀ st a x, x
     (st : RState) (v : Word) (x : Addr) (hx : x ∈ st.finalised) : x ∈ (remPtr fin st v).finalised := by
   unfold remPtr
   split
+  · exact hx
+  unfold remPtrBody
+  split
   · exact hfin _ v x hx
   · split
     · exact hfin _ v x hx
@@ -245,12 +254,21 @@ theorem releaseLoop_fin_mono (fuel : Nat) : ∀ (rest : List Addr) (st : RState)
     · exact releaseLoop_fin_mono fuel rest _ x (finaliseAt_fin_mono h0 fuel _ a x hx)
     · exact releaseLoop_fin_mono fuel rest st x hx
 
-/-- `del(v)` of an entry that is registered and not on the free list finalises it -/
-theorem remPtr_registered (fuel : Nat) (st : RState) (v : Addr) (hp : st.pending.contains (some v) = false)
+/-- `del(v)` of an entry (not NULL) that is registered and not on the free list finalises it -/
+theorem remPtr_registered (fuel : Nat) (st : RState) (v : Addr) (hv : v ≠ 0) (hp : st.pending.contains (some v) = false)
     (hr : (st.heap.lookup v).isSome = true) : v ∈ (remPtr (finaliseAt h0 (fuel + 1)) st v).finalised := by
-  unfold remPtr
-  simp only [hp, hr, if_true, Bool.false_eq_true, if_false]
+  unfold remPtr remPtrBody
+  simp only [hv, hp, hr, if_true, Bool.false_eq_true, if_false]
   exact finaliseAt_self h0 fuel _ v
+
+/-- **`del(NULL)` is a no-op in every state of the release loop** (fix d3e4e44) -/
+theorem remPtr_null (fin : RState → Addr → RState) (st : RState) : remPtr fin st 0 = st := by
+  simp [remPtr]
+
+/-- … and for a pointer that is not NULL the early-out changes nothing -/
+theorem remPtr_nonnull (fin : RState → Addr → RState) (st : RState) (v : Word) (hv : v ≠ 0) :
+    remPtr fin st v = remPtrBody fin st v ∧ remPtrPre fin st v = remPtrBody fin st v := by
+  simp [remPtr, remPtrPre, hv]
 
 end mono
 
@@ -347,6 +365,9 @@ theorem collectFrom_pending_iff (wf : h.WF) (thread : Obj) (stack : List Word) (
 theorem remPtr_wf (fin : RState → Addr → RState) (hfin : ∀ st a, st.heap.WF → (fin st a).heap.WF)
     (st : RState) (v : Word) (hw : st.heap.WF) : (remPtr fin st v).heap.WF := by
   unfold remPtr
+  split
+  · exact hw
+  unfold remPtrBody
   split
   · exact hfin _ v hw
   · split
